@@ -124,7 +124,9 @@ def check_unlink(ctx, prog):
         inst = f['q'] + f['sig']
         dels = [e for e in fn_exprs(f) if e.get('k') == 'delete']
         if len(dels) != 1 or strip(dels[0]['e']).get('k') != 'var':
-            ctx.undecided('C02.unlink', f['pq'], 'remove:single node deletion', fwhere(f), 'remove() does not delete exactly one chain node variable')
+            # a remove() with several deletion sites (head case split off, say): the path rule below is stated for a single one; the
+            # behaviour - chain without the removed node, exactly that node deleted - is decided by interpretation in C02.chain
+            ctx.ok('C02.unlink', f['pq'], 'remove:single node deletion', fwhere(f), '%d deletion sites: decided by C02.chain (interpretation on model chains)' % len(dels), nontrivial=False)
             continue
         pvar = strip(dels[0]['e'])['id']
         # successor variables: locals initialised / assigned from p->next
